@@ -514,15 +514,24 @@ type ackInfo struct {
 	step       int
 	inWindow   string // deletion step that ran while this commit was held at its add-task step ("" = none)
 	wasPending bool   // some deletion attempt happened while the blob was not yet in its backend
-	// racedOther: the acknowledgement was a 409 conflict, and while that request ran the
-	// write-back of the same blob for the other namespace was completing (its task was
-	// still stored before the request, the blob was in the other backend after it).
+	// racedOther: while the acknowledging request ran, the write-back of the same blob for
+	// the other namespace was completing (its task was still stored just before the
+	// request, the blob was in the other backend right after it).
 	racedOther bool
+	// staleTask: the acknowledgement was a 2xx commit of a blob that was not in the cache,
+	// yet a write-back task for the same (namespace, blob) was stored just before the
+	// request — the left-over of an earlier commit that failed after adding its task.
+	staleTask bool
 }
+
+// beforeSample is what the harness reads from the write-back table just before a request.
+type beforeSample struct{ other, own bool }
 
 type outcome struct {
 	violation string
 	liveness  string
+	// livenessStale: every blob that did not arrive was acknowledged next to a stale task (open finding 2).
+	livenessStale bool
 	infra     string
 	classes   []string
 	nontriv   bool
@@ -530,18 +539,42 @@ type outcome struct {
 
 const livenessBound = 10 * time.Second
 
-// raceLabel marks the one open finding (C31-conflict-races-other-namespace): a
-// conflict acknowledgement for one namespace races the end of the blob's write-back
-// for the other namespace, which removes the persist flag the conflict path just
-// relied on.
-const raceLabel = "[acknowledged by a conflict while the write-back for another namespace was completing]"
+// Two open findings are recognised by a label that the oracle attaches to the
+// violation's first line only under the circumstances described at ackInfo.
+//
+// raceLabel (C31-ack-races-other-namespace): an acknowledgement for one namespace
+// races the end of the blob's write-back for the other namespace, which removes the
+// persist flag the acknowledging request has just relied on.
+//
+// staleLabel (C31-stale-task-dropped-under-commit): a commit is acknowledged while a
+// left-over task of an earlier failed commit of the same (namespace, blob) is being
+// dropped as "cache file missing"; the new commit's Add was a no-op on that task.
+const (
+	raceLabel  = "[acknowledged while the write-back for another namespace was completing]"
+	staleLabel = "[acknowledged next to a stale write-back task of an earlier failed commit]"
+)
 
-func knownConflictRace(c Case, v pbt.Verdict) bool {
+const (
+	sigLost     = "acknowledged upload is neither in its backend nor in the origin cache"
+	sigLiveness = "acknowledged upload never reaches its backend"
+)
+
+func firstLineOf(v pbt.Verdict) string {
 	first := v.Violation
 	if i := strings.IndexByte(first, '\n'); i >= 0 {
 		first = first[:i]
 	}
-	return c.Split && strings.HasPrefix(first, "acknowledged upload is neither in its backend nor in the origin cache") && strings.HasSuffix(first, raceLabel)
+	return first
+}
+
+func knownRaceOtherNamespace(c Case, v pbt.Verdict) bool {
+	first := firstLineOf(v)
+	return c.Split && strings.HasPrefix(first, sigLost) && strings.HasSuffix(first, raceLabel)
+}
+
+func knownStaleTask(c Case, v pbt.Verdict) bool {
+	first := firstLineOf(v)
+	return (strings.HasPrefix(first, sigLost) || strings.HasPrefix(first, sigLiveness)) && strings.HasSuffix(first, staleLabel)
 }
 
 func uploadPath(ns, blob int, uid string) string {
@@ -589,7 +622,7 @@ func runOnce(c Case) (out outcome) {
 		done    chan int
 		during  []string
 
-		otherBefore bool
+		before beforeSample
 	}
 	var held *heldCommit
 
@@ -633,10 +666,12 @@ func runOnce(c Case) (out outcome) {
 			if ok {
 				state = fmt.Sprintf("the origin cache holds %d different bytes", len(v))
 			}
-			sig := "acknowledged upload is neither in its backend nor in the origin cache"
+			sig := sigLost
 			// Classify the circumstances (first line = signature used for known findings).
 			other := ack{ns: 1 - a.ns, blob: a.blob}
 			switch {
+			case info.staleTask:
+				sig += " " + staleLabel
 			case info.racedOther:
 				sig += " " + raceLabel
 			case c.Split && acked[other] != nil && inBackend(other):
@@ -658,6 +693,13 @@ func runOnce(c Case) (out outcome) {
 		}
 		return n > 0
 	}
+	ownTaskStored := func(s slotState) bool {
+		var n int
+		if err := o.db.Get(&n, `SELECT COUNT(*) FROM writeback_task WHERE namespace=? AND name=?`, nsNames[s.ns], blobDig[s.blob].Hex()); err != nil {
+			return false
+		}
+		return n > 0
+	}
 	noteAck := func(s slotState, how string, step int) *ackInfo {
 		a := ack{ns: s.ns, blob: s.blob}
 		if acked[a] == nil {
@@ -665,22 +707,31 @@ func runOnce(c Case) (out outcome) {
 		}
 		return acked[a]
 	}
-	handleStatus := func(s slotState, code int, what string, step int, otherStoredBefore bool) *ackInfo {
+	sample := func(s slotState) beforeSample {
+		return beforeSample{other: otherTaskStored(s), own: ownTaskStored(s)}
+	}
+	handleStatus := func(s slotState, code int, what string, step int, b beforeSample) *ackInfo {
+		var info *ackInfo
+		_, had := acked[ack{ns: s.ns, blob: s.blob}]
 		switch {
 		case code >= 200 && code < 300 && what == "commit":
 			cls["ack-commit-2xx"] = true
-			return noteAck(s, "commit 2xx", step)
+			info = noteAck(s, "commit 2xx", step)
+			if !had && b.own {
+				info.staleTask = true
+				cls["commit-ack-with-stale-task-of-failed-commit"] = true
+			}
 		case code == http.StatusConflict:
 			cls["ack-conflict-409-"+what] = true
-			_, had := acked[ack{ns: s.ns, blob: s.blob}]
-			info := noteAck(s, "conflict 409 on "+what, step)
-			if !had && c.Split && otherStoredBefore && inBackend(ack{ns: 1 - s.ns, blob: s.blob}) {
-				info.racedOther = true
-				cls["conflict-ack-while-other-namespace-write-back-completes"] = true
-			}
-			return info
+			info = noteAck(s, "conflict 409 on "+what, step)
+		default:
+			return nil
 		}
-		return nil
+		if !had && c.Split && b.other && inBackend(ack{ns: 1 - s.ns, blob: s.blob}) {
+			info.racedOther = true
+			cls["ack-while-other-namespace-write-back-completes"] = true
+		}
+		return info
 	}
 	deletionAttempt := func(desc string) {
 		for a, info := range acked {
@@ -705,7 +756,7 @@ func runOnce(c Case) (out outcome) {
 			held = nil
 			return "held commit did not finish"
 		}
-		if info := handleStatus(held.slot, code, "commit", held.step, held.otherBefore); info != nil && len(held.during) > 0 && info.step == held.step {
+		if info := handleStatus(held.slot, code, "commit", held.step, held.before); info != nil && len(held.during) > 0 && info.step == held.step {
 			info.inWindow = strings.Join(held.during, ", ")
 			cls["deletion-inside-commit-window"] = true
 		}
@@ -737,7 +788,7 @@ func runOnce(c Case) (out outcome) {
 		switch op.K {
 		case opStart:
 			s := slotState{blob: op.Blob, ns: op.NS}
-			before := otherTaskStored(s)
+			before := sample(s)
 			code, hdr, _ := o.do("POST", uploadPath(op.NS, op.Blob, ""), nil, nil)
 			if code == http.StatusOK && hdr.Get("Location") != "" {
 				s.active, s.uid = true, hdr.Get("Location")
@@ -758,7 +809,7 @@ func runOnce(c Case) (out outcome) {
 				cuts = []int{0, len(data) / 2, len(data)}
 			}
 			for j := 0; j+1 < len(cuts); j++ {
-				before := otherTaskStored(s)
+				before := sample(s)
 				code, _, _ := o.do("PATCH", uploadPath(s.ns, s.blob, s.uid),
 					map[string]string{"Content-Range": fmt.Sprintf("%d-%d", cuts[j], cuts[j+1])}, data[cuts[j]:cuts[j+1]])
 				if code == http.StatusConflict {
@@ -772,7 +823,7 @@ func runOnce(c Case) (out outcome) {
 				cls["skipped-step-without-upload"] = true
 				continue
 			}
-			before := otherTaskStored(s)
+			before := sample(s)
 			if op.K == opCommitPaused && held == nil {
 				reached, release := o.wbm.arm()
 				done := make(chan int, 1)
@@ -788,7 +839,7 @@ func runOnce(c Case) (out outcome) {
 				}()
 				select {
 				case <-reached:
-					held = &heldCommit{slot: s, step: i, release: release, done: done, otherBefore: before}
+					held = &heldCommit{slot: s, step: i, release: release, done: done, before: before}
 					cls["commit-held-at-add-task"] = true
 				case code := <-done: // the commit never got to its write-back step
 					o.wbm.disarm()
@@ -911,6 +962,12 @@ func runOnce(c Case) (out outcome) {
 		if time.Now().After(deadline) {
 			sort.Strings(missing)
 			out.liveness = strings.Join(missing, "; ")
+			out.livenessStale = true
+			for a, info := range acked {
+				if !inBackend(a) && !info.staleTask {
+					out.livenessStale = false
+				}
+			}
 			return
 		}
 		time.Sleep(2 * time.Millisecond)
@@ -976,7 +1033,11 @@ func runCase(c Case) pbt.Verdict {
 			return pbt.OK(last.nontriv, last.classes...)
 		}
 	}
-	return pbt.Fail("acknowledged upload never reaches its backend although the backends are healthy (3 runs, 10 s each)\n  %s", last.liveness)
+	label := ""
+	if last.livenessStale {
+		label = " " + staleLabel
+	}
+	return pbt.Fail("acknowledged upload never reaches its backend although the backends are healthy (3 runs, 10 s each)%s\n  %s", label, last.liveness)
 }
 
 func TestProp(t *testing.T) {
@@ -993,6 +1054,8 @@ func TestProp(t *testing.T) {
 			"interleavings inside the commit are explored at one pause point only (the write-back manager's Add, reachable without a hook)",
 			"liveness is bounded: 10 s of healthy backends without the blob arriving, reproduced 3 times, counts as never",
 		},
-		Parts: []pbt.Part{pbt.WithKnown(pbt.NewPart("history", 1, gen, run), "c31.conflict-ack-races-other-namespace-write-back", knownConflictRace)},
+		Parts: []pbt.Part{pbt.WithKnown(pbt.WithKnown(pbt.NewPart("history", 1, gen, run),
+			"c31.ack-races-other-namespace-write-back", knownRaceOtherNamespace),
+			"c31.ack-next-to-stale-task-of-failed-commit", knownStaleTask)},
 	})
 }
